@@ -813,6 +813,115 @@ class Runner:
                 P = P + items
         return P
 
+    def cont_snapshot(self, c):
+        """The notifier list of container c when notify() starts, in order: ('u', hid, target) |
+        ('m', kind, hid, target, graph) | ('x',) for anything else (the `name_items` notifier)."""
+        from traits.observation._observer_change_notifier import ObserverChangeNotifier
+        from traits.observation._trait_event_notifier import TraitEventNotifier
+        out = []
+        for nt in (c._notifiers(False) or []):
+            if isinstance(nt, (TraitEventNotifier, ObserverChangeNotifier)):
+                d = self.w.describe(nt)
+                out.append(("u", d[1], d[2]) if d[0] == "u" else d)
+            else:
+                out.append(("x",))
+        return out
+
+    def predict_cont(self, pop, snap, ckey, olds, news):
+        """TraitList / TraitDict / TraitSet.notify: `for notifier in self.notifiers` over the LIVE list
+        (an entry removed at or before the current position makes the loop skip the next one, an entry
+        appended during the dispatch is called too); each item maintainer
+        (_list/_dict/_set_item_observer._observer_change_handler) walks the removed items with remove=True,
+        then the added items with remove=False; the first exception propagates (None)."""
+        w = self.w
+        P = collections.Counter(pop)
+        L = list(snap)
+        idx = 0
+        fuel = 200
+        while idx < len(L) and fuel:
+            fuel -= 1
+            e = L[idx]
+            if e[0] == "m" and base(e[2]) not in w.dead and e[3] >= 0:
+                _, kind, hid, tid, g = e
+                for x, rm in [(x, True) for x in olds] + [(x, False) for x in news]:
+                    items = collections.Counter()
+                    if not w.spec_walk(g, x, (hid, tid), items):
+                        return None
+                    for k, n in items.items():
+                        own = k[0] == ckey
+                        for _ in range(n):
+                            if rm:
+                                if P[k] <= 0:
+                                    return None
+                                P[k] -= 1
+                                if own and k[1] == "m":
+                                    L.remove(("m",) + tuple(k[2:]))
+                                elif own and P[k] == 0:
+                                    L.remove(("u", k[2], k[3]))
+                            else:
+                                if own and (k[1] == "m" or P[k] == 0):
+                                    L.append(("m",) + tuple(k[2:]) if k[1] == "m" else ("u", k[2], k[3]))
+                                P[k] += 1
+            idx += 1
+        return P if fuel else None
+
+    def added_snapshot(self, o):
+        """The trait_added maintainers on o: [(hid, target, graph incl. the contributing node)]."""
+        from traits.observation._observer_change_notifier import ObserverChangeNotifier
+        from traits.observation._trait_added_observer import TraitAddedObserver
+        t = o._trait("trait_added", 0)
+        out = []
+        for nt in ((t._notifiers(False) or []) if t is not None else []):
+            if isinstance(nt, ObserverChangeNotifier) and \
+                    nt.observer_handler is TraitAddedObserver.observer_change_handler:
+                d = self.w.describe(nt)
+                out.append((d[2], d[3], d[4]))
+        return out
+
+    def predict_added(self, pop, snap, o, names):
+        """TraitAddedObserver.observer_change_handler for every announced name: when the node of the graph
+        matches the new trait, the graph restricted to that one trait is walked from o with remove=False
+        (the restricted root contributes no trait_added maintainer of its own)."""
+        w = self.w
+        P = collections.Counter(pop)
+        for name in names:
+            tr = o.trait(name)
+            for hid, tid, g in snap:
+                if base(hid) in w.dead or tid < 0:
+                    continue
+                node, children = g
+                if node[0] == "t":
+                    match = node[1] == name
+                elif node[0] == "any":
+                    match = not name.endswith("_items")
+                else:
+                    match = not name.endswith("_items") and tr is not None and tr.tag is not None
+                if not match:
+                    continue
+                rg = (("t", name, node_notify(node), False), children)
+                items = collections.Counter()
+                if not w.spec_walk(rg, o, (hid, tid), items):
+                    return None
+                own = (w.obs_key(o, "trait_added"), "m", "a", hid, tid, canon(rg))
+                items[own] -= 1
+                P = P + collections.Counter({k: n for k, n in items.items() if n > 0})
+        return P
+
+    def classify_pred(self, pred):
+        """`pred`: what the documented algorithm leaves (None: not evaluated).  Only called in a history
+        where NoSelfReach has failed."""
+        if not self.selfreach or not self.check_reach() or self.last_pop is None or self.shadow_default:
+            return
+        _, pop = self.w.population()
+        if self.live(pop) == self.live(self.w.spec_population(self.ledger)):
+            return
+        if pred is not None:
+            self.f10_class = self.live(pred) == self.live(pop)
+            self.tags.add("selfreach:as-documented" if self.f10_class else "selfreach:NOT-as-documented")
+            self.tags.add("selfreach-replay:" + self.cur_kind)
+        else:
+            self.tags.add("selfreach-by-presence:" + self.cur_kind)
+
     def classify_selfreach(self, snap, old, new, notified):
         """After an assignment in a history where NoSelfReach has failed: do the populations differ from
         the from-scratch walk, and if so, are they what the documented algorithm leaves (the F10 class)?"""
@@ -1376,7 +1485,19 @@ class Runner:
             snap = None
             try:
                 if self.cur_kind in ("obs", "unobs"):
+                    ledger_before = collections.Counter(self.ledger)
                     status = self.observe(op)
+                    if self.selfreach and self.check_reach() and self.last_pop is not None:
+                        # the registration walk is exact: previous populations +- the from-scratch hooks of
+                        # what this call registered / unregistered (nothing when it raised)
+                        try:
+                            delta_add = w.spec_population(self.ledger - ledger_before)
+                            delta_rm = w.spec_population(ledger_before - self.ledger)
+                            pred = collections.Counter(self.last_pop) + delta_add
+                            pred = pred - delta_rm if all(pred[k] >= n for k, n in delta_rm.items()) else None
+                        except Exception:
+                            pred = None
+                        self.classify_pred(pred)
                 else:
                     if self.check_reach() and self.ledger:
                         self.cur_canon = self.canon_op(op.split())
@@ -1389,6 +1510,16 @@ class Runner:
                         p = op.split()
                         snap = self.maint_snapshot(w.pool[int(p[1])], p[2])
                         get_unset = p[2] not in w.pool[int(p[1])].__dict__
+                    csnap = asnap = None
+                    if self.check_reach() and self.last_pop is not None:
+                        p = op.split()
+                        if pre is not None and pre["target"][0] == "c":
+                            csnap = self.cont_snapshot(w.objs[pre["target"][1]])
+                        elif self.cur_kind == "addt" and self.selfreach:
+                            ao = w.pool[int(p[1])]
+                            asnap = self.added_snapshot(ao)
+                            anames = [nm for nm in ([p[2] + "_items"] if p[2] == "l2" else []) + [p[2]]
+                                      if ao._trait(nm, 0) is None]
                     if self.cur_kind in ("set", "seti", "setl", "setd", "sets", "del"):
                         p = op.split()
                         o = w.pool[int(p[1])]
@@ -1428,6 +1559,16 @@ class Runner:
                     if pre is not None and self.check_reach():
                         # the old/new subtrees in the heap AFTER the mutation
                         self.check_selfreach(pre)
+                    if status == "ok" and self.selfreach and self.check_reach():
+                        try:
+                            if csnap is not None:
+                                self.classify_pred(self.predict_cont(self.last_pop, csnap, pre["target"],
+                                                                     pre["olds"], pre["news"]))
+                            elif asnap is not None:
+                                self.classify_pred(self.predict_added(self.last_pop, asnap, ao, anames))
+                        except Exception:
+                            self.tags.add("selfreach-by-presence:" + self.cur_kind)
+                    if pre is not None and self.check_reach():
                         if self.selfreach and snap is not None and status == "ok":
                             from traits.trait_base import Uninitialized
                             p = op.split()
